@@ -91,6 +91,29 @@ def norm_inv(changes, target=None):
     return out
 
 
+def drop_unchanged_outside(recs, spec):
+    out = set()
+    for c in recs:
+        if c[0] == "v":
+            _t, _fid, path, ch, ver, par, name, kind, ex = c
+            unchanged = not ch and ver == (True, True) and path[0] == path[1] and par[0] == par[1] and name[0] == name[1] and ex[0] == ex[1] and kind[0] == kind[1]
+            if unchanged and not any(T.inside(s, path[1]) for s in spec):
+                continue
+        out.add(c)
+    return out
+
+
+def blank_unchanged_old_path(recs):
+    out = set()
+    for c in recs:
+        if c[0] == "v":
+            _t, fid, path, ch, ver, par, name, kind, ex = c
+            if not ch and ver == (True, True) and par[0] == par[1] and name[0] == name[1] and ex[0] == ex[1] and kind[0] == kind[1]:
+                c = (_t, fid, (None, path[1]), ch, ver, par, name, kind, ex)
+        out.add(c)
+    return out
+
+
 def _short(s, n=5):
     return sorted(s, key=repr)[:n]
 
@@ -169,7 +192,7 @@ class Ctx:
         self.sim.fail(tag, ["C10", tag, self.fl, impl], "%s; %s: %s" % (self.where, json.dumps(params), detail))
 
 
-def compare_pair(ctx, a, b, filters, plan_names, is_wt):
+def compare_pair(ctx, a, b, filters, plan_names, is_wt, guards=frozenset()):
     """All oracles on the pair (source a, target b); both read-locked by the caller."""
     from breezy.tree import InterTree
 
@@ -197,6 +220,20 @@ def compare_pair(ctx, a, b, filters, plan_names, is_wt):
                         ref = norm_inv(InterInventoryTree(a, b).iter_changes(inc, spec, want_unversioned=unv, require_versioned=False), b)
                     except Exception as e:  # noqa: BLE001
                         ctx.fail("generic_raised", impl, "generic InterInventoryTree raised %r" % (e,), params)
+                    if spec is not None and unv:
+                        # unversioned entries are selected by literal path in the generic code and
+                        # by related (renamed) path in the dirstate: compare inside the filter only
+                        got = {c for c in got if not (c[0] == "u" and not any(T.inside(s, c[1]) for s in spec))}
+                        ref = {c for c in ref if not (c[0] == "u" and not any(T.inside(s, c[1]) for s in spec))}
+                    if spec is not None and unv and "bzr_filter_unversioned_at_removed" in guards:
+                        got = {c for c in got if not (c[0] == "u" and a.is_versioned(c[1]))}
+                        ref = {c for c in ref if not (c[0] == "u" and a.is_versioned(c[1]))}
+                    if inc and impl == "InterCHKRevisionTree" and "chk_unchanged_old_path" in guards:
+                        got, ref = blank_unchanged_old_path(got), blank_unchanged_old_path(ref)
+                    if spec is not None and inc:
+                        # unchanged entries outside the filter (parents that were "evaluated for
+                        # changes too") carry no information: one implementation lists them
+                        got, ref = drop_unchanged_outside(got, spec), drop_unchanged_outside(ref, spec)
                     if got != ref:
                         tag = "filtered_differs" if spec is not None else "unfiltered_differs"
                         ctx.fail(tag, impl, "only %s: %r; only generic: %r" % (impl, _short(got - ref), _short(ref - got)), params)
@@ -263,8 +300,11 @@ def compare_pair(ctx, a, b, filters, plan_names, is_wt):
                     if lost:
                         ctx.fail("filtered_differs", impl, "unfiltered result has %r below the filter, the filtered one does not" % (_short(lost),), params)
         # unfiltered records applied to the source give the target (per path, files and links)
-        pa = {p: (v[0], bool(v[2])) for p, v in snap_a.items() if v[0] not in (None, T.DIR)}
-        pb = {p: (v[0], bool(v[2])) for p, v in snap_b.items() if v[0] not in (None, T.DIR)}
+        def leaves(snap):
+            dirs = {a for p in snap for a in T.ancestors(p)}
+            return {p: (v[0], bool(v[2])) for p, v in snap.items() if v[0] not in (None, T.DIR) and p not in dirs}
+
+        pa, pb = leaves(snap_a), leaves(snap_b)
         res = dict(pa)
         for r in full[False, False]:
             if r[0] != "p":
@@ -300,7 +340,7 @@ def compare_step(sim, tree, model, i, op):
     with tree.lock_read():
         basis = tree.basis_tree()
         with basis.lock_read():
-            n, d = compare_pair(Ctx(sim, fl, "step %d (%s), basis vs working tree" % (i, op["o"])), basis, tree, filters, plan.get("names", []), True)
+            n, d = compare_pair(Ctx(sim, fl, "step %d (%s), basis vs working tree" % (i, op["o"])), basis, tree, filters, plan.get("names", []), True, model.guards)
     st["evals"] += n
     st["differed"] = st["differed"] or d
     sim.event("cmp", i, n)
@@ -322,7 +362,7 @@ def compare_history(sim, tree, model):
         for x, y in pairs[:4]:
             a, b = repo.revision_tree(x), repo.revision_tree(y)
             with a.lock_read(), b.lock_read():
-                n, d = compare_pair(Ctx(sim, model.flavour, "revision trees %s -> %s" % (x.decode()[:12], y.decode()[:12])), a, b, sim.plan.get("filters", []), sim.plan.get("names", []), False)
+                n, d = compare_pair(Ctx(sim, model.flavour, "revision trees %s -> %s" % (x.decode()[:12], y.decode()[:12])), a, b, sim.plan.get("filters", []), sim.plan.get("names", []), False, model.guards)
             st["evals"] += n
             st["differed"] = st["differed"] or d
             sim.event("cmp-revs", cands.index(x), cands.index(y), n)
